@@ -119,7 +119,7 @@ Definition st_enc (api : sapi) (be : bool) (prefix : nat) (r : rty) (v : val) : 
       | VStruct vs => push_after_prefix prefix (to_str (sig_r r)) (derive_struct_marshal (map (marshal_t be) vs))
       | _ => {| e_ok := false; e_sig := []; e_buf := [] |}
       end
-  | ApiP => push_after_prefix prefix (to_str (ty_of v)) (marshal_p be 0 v)
+  | ApiP => push_after_prefix prefix (to_str (ty_of v)) (marshal_param_top be v)
   end.
 
 Definition st_dec (api : sapi) (be : bool) (prefix : nat) (r : rty) (e : enc) : dres :=
@@ -157,7 +157,7 @@ Definition en_enc (api : eapi) (be : bool) (prefix : nat) (k : ecase) (p : epay)
   | ApiED => push_after_prefix prefix [c_v] (derive_case_marshal be k p)
   | ApiS => push_after_prefix prefix [c_v] (sig_macro_marshal be (macro_case k) v)
   | ApiM => push_after_prefix prefix [c_v] (var_macro_marshal be (macro_case k) v)
-  | ApiEP => push_after_prefix prefix [c_v] (marshal_p be 0 (VVariant t v))
+  | ApiEP => push_after_prefix prefix [c_v] (marshal_param_top be (VVariant t v))
   end.
 
 (* what a read of an enum gives: the case (None for the APIs without cases) and the variant value, or Catchall *)
